@@ -42,18 +42,36 @@ type PESDesc struct {
 	IDR   bool  `json:"idr,omitempty"`
 }
 
+// UnsupDesc is an elementary stream of the PMT with a codec the client does not support
+// (MPEG-TS only). The PMT lists, for i = 0..len(Tracks): every UnsupDesc with Before == i (in
+// the order of StreamDesc.Unsup), then Tracks[i].
+type UnsupDesc struct {
+	Codec  string `json:"codec"`  // mp3 | ac3 | opus | h265 | mpeg4video | mpeg1video
+	Before int    `json:"before"` // listed before supported track #Before (len(Tracks): after all of them)
+}
+
+// XPESDesc is one PES of an unsupported elementary stream.
+type XPESDesc struct {
+	X     int   `json:"x"`     // index into StreamDesc.Unsup
+	After int   `json:"after"` // written after the first After entries of SegDesc.PES (0: before all of them)
+	PTS   int64 `json:"pts"`   // TRUE 90 kHz time
+	ID    int   `json:"id"`
+}
+
 // SegDesc is one media segment.
 type SegDesc struct {
 	HasDate bool       `json:"has_date"`
 	Date    int64      `json:"date"` // EXT-X-PROGRAM-DATE-TIME, ns since the Unix epoch
 	Parts   []PartDesc `json:"parts,omitempty"`
-	PES     []PESDesc  `json:"pes,omitempty"` // in write order
-	DurNs   int64      `json:"dur_ns"`        // EXTINF
+	PES     []PESDesc  `json:"pes,omitempty"`  // in write order
+	XPES    []XPESDesc `json:"xpes,omitempty"` // PES of unsupported elementary streams, interleaved by After
+	DurNs   int64      `json:"dur_ns"`         // EXTINF
 }
 
 // StreamDesc is one media playlist.
 type StreamDesc struct {
-	Tracks   []TrackDesc `json:"tracks"`
+	Tracks   []TrackDesc `json:"tracks"`          // the SUPPORTED tracks, in PMT / init order
+	Unsup    []UnsupDesc `json:"unsup,omitempty"` // MPEG-TS: unsupported elementary streams of the PMT
 	Segs     []SegDesc   `json:"segs"`
 	FirstLen int         `json:"first_len"` // live: number of segments in the first playlist response
 	TrimTo   int         `json:"trim_to"`   // live: later responses start at this segment
@@ -95,4 +113,33 @@ func (d *Desc) firstSeg(s *StreamDesc) int {
 	default: // live, event
 		return s.FirstLen - 3
 	}
+}
+
+// pmtEntry is one elementary stream of a MPEG-TS playlist's PMT, in PMT order.
+type pmtEntry struct {
+	Sup   int    // index into StreamDesc.Tracks, -1 for an unsupported stream
+	X     int    // index into StreamDesc.Unsup, -1 for a supported stream
+	Codec string // h264 | aac | mp3 | ac3 | opus | h265 | mpeg4video | mpeg1video
+}
+
+func (st *StreamDesc) pmt() []pmtEntry {
+	var out []pmtEntry
+	for i := 0; i <= len(st.Tracks); i++ {
+		for x, u := range st.Unsup {
+			b := u.Before
+			if b < 0 {
+				b = 0
+			}
+			if b > len(st.Tracks) {
+				b = len(st.Tracks)
+			}
+			if b == i {
+				out = append(out, pmtEntry{Sup: -1, X: x, Codec: u.Codec})
+			}
+		}
+		if i < len(st.Tracks) {
+			out = append(out, pmtEntry{Sup: i, X: -1, Codec: st.Tracks[i].Codec})
+		}
+	}
+	return out
 }
